@@ -9,7 +9,7 @@ CHECKS = {
     technique="TLC exhaustive exploration of SubStore.tla + transition-coverage replay of every transition into the real store; TLC-generated exhaustive TopicMatch table",
     text="TLC explores the abstract subscription store (SubStore.tla, queries defined from Topics!Match = MQTT 4.7) exhaustively for five alphabet packs; "
          "every (state, operation) transition TLC generates is replayed on a fresh mem.NewStore() and all Iterate query modes, by-name, by-client, counters and AlreadyExisted "
-         "are compared with the specification's prediction. packets.TopicMatch is compared with Topics!Match on every (valid name, valid filter) pair over {a,b,/,+,#,$} up to length 4 (5 thorough). "
+         "are compared with the specification's prediction; the same replay runs on the redis-backed store over an in-process RESP server, where after every transition a restarted store (Init) must answer the same. packets.TopicMatch is compared with Topics!Match on every (valid name, valid filter) pair over {a,b,/,+,#,$} up to length 4 (5 thorough). "
          "Exhaustive within the stated bounds, for the real code; nothing beyond the bounds.",
     note="Bounds: 2-3 clients, 7 filters per pack, <=3 live subscriptions, topic universe depth 3. Trusted: TLC, the JSON bridge, the replayer's projection function (public API only)."),
  "C01": dict(
@@ -18,7 +18,7 @@ CHECKS = {
     text="Design level: TLC checks exhaustively (small constants) that an operational model of the broker's delivery algorithm (BrokerOp.tla: per-session queues, overlap / onlyonce accumulation, share-group pick) "
          "refines the declarative delivery obligations of Broker.tla (HeadExplained, DrainedMeansQuiet). Conformance: seeded scenarios (random subscription tables over filters x QoS x NoLocal x RAP x id, v3/v5 subscribers, "
          "publishers = other client / self / Publisher API, both delivery modes, concurrent numbered publishers) run on real brokers through an independent MQTT codec; every recorded event must be explained by a Broker.tla action "
-         "(obligation discharge with exact QoS/RETAIN/identifiers, per-(publisher,subscriber) order, ack pairing) and nothing may be owed at a barrier.",
+         "(obligation discharge with exact QoS/RETAIN/identifiers/application properties, per-(publisher,subscriber) order, ack pairing) and nothing may be owed at a barrier.",
     note="Bounded: scenario sizes and alphabets, seeds. Barrier soundness rests on the session queue being FIFO (a broken FIFO shows up as a late packet = rejection). Trusted: TLC, mqttwire codec, the wire driver's logging discipline (inputs logged before write, outputs after read)."),
  "C11": dict(
     level="model_checking", ref="DESIGN.md §4 C11",
@@ -91,19 +91,21 @@ CHECKS = {
     note="Real seconds; decisive instants >= 450 ms from deadlines; logging latency assumed < 400 ms. Retained replay excluded (fresh lifetime by design). States/transitions reported are those of the trace specification visited while explaining the traces."),
  "C05": dict(
     level="model_checking", ref="DESIGN.md §4 C05, App. B.3",
-    technique="timed trace validation by TLC against Broker.tla session rules, with the broker's register/unregister/closed hook events as linearization points; storms of simultaneous CONNECTs",
+    technique="TLC model check of TakeOver.tla (take-over protocol at the grain of the code) with every schedule it admits forced on the real broker through blocking gate hooks (schedule gating); timed trace validation by TLC against Broker.tla session rules, with the broker's register/unregister/exit/closed hook events as linearization points; storms of simultaneous CONNECTs",
     text="Seeded scenarios: lifecycle matrix (v3.1/v3.1.1/v5 x Clean Start x expiry x connection duration shorter/longer than the expiry x DISCONNECT / DISCONNECT with new expiry / abort / TerminateSession x reconnect before/after the expiry), "
          "sequential take-overs, and storms of 2-6 simultaneous CONNECTs on one client id with and without a stored offline session. TLC validates Session Present against ResumeVerdicts (expiry measured from the end of the last connection, "
          "either verdict inside a 450 ms window), that the session state is intact by content (subscription routes, message queued while offline is delivered) or empty, and on the broker's own event order: at most one registered connection per "
-         "client id, a broker-ended connection has finished its teardown before the next one is registered, nothing delivered on a displaced connection.",
-    note="Real seconds (20 s sweeper not waited for); interleavings of simultaneous CONNECTs are those the Go scheduler produces in the storms (the re-lock window defect was found this way and fixed), not an exhaustive enumeration."),
+         "client id, the socket of a displaced connection closed before the next one is registered and (wire level) its end readable when the newer CONNACK is read, nothing delivered on a displaced connection. "
+         "Schedule gating: TakeOver.tla (lock / read / gate / close old / await closed / gate / loop / register) is model-checked (OneLive, DisplacedClosedFirst, termination) and every schedule of 2 simultaneous CONNECTs "
+         "(16 parameter vectors x 4 initial situations, 576 schedules) and of 3 (per parameter vector ~12 000 schedules; quick 500 seeded) is executed deterministically on a real broker and validated the same way.",
+    note="Real seconds (20 s sweeper only in the sweeper family). Interleavings are exhaustive at gate granularity for N <= 3; races inside the critical sections are those the Go scheduler produces in the storms."),
  "C08": dict(
     level="model_checking", ref="DESIGN.md §4 C08",
     technique="timed trace validation by TLC against Broker.tla will rules (WillAtEnd / WillAtResume / WillAtSessionEnd / WillFire), with the broker's will-publication hook event and an independent watcher",
     text="Seeded timed scenarios: will {QoS, retain, delay 0/1/2 s, v3.1.1/v5} x ending {DISCONNECT 0x00, DISCONNECT 0x04, socket close, malformed packet, keep-alive timeout, take-over with Clean Start 0/1, TerminateSession} x session expiry {0,1,5 s} "
          "x reconnect {none, before, after the delay}. TLC validates that the will is published exactly once (publication event + delivery to a watcher with the QoS / RETAIN its subscription yields), not before min(delay, expiry) after the end "
          "of the connection, within 500 ms after it, immediately when the session ends, never after DISCONNECT 0x00 and never after a resume before the delay.",
-    note="Real seconds; tolerance windows 200 ms early / 500 ms late / 450 ms around resume decisions. Will properties other than QoS/retain/delay and storing a retained will are not examined."),
+    note="Real seconds; tolerance windows 200 ms early / 500 ms late / 450 ms around resume decisions. Will application properties (payload format, content type, response topic, correlation data, user properties) are compared; storing a retained will is not examined."),
  "C10": dict(
     level="model_checking", ref="DESIGN.md §4 C10, App. B.1",
     technique="TLC exhaustive Queue.tla (functional-style queue model with fate map and drop ladder) + transition-coverage replay with probe sequences into the memory queue and the redis queue (RESP fake)",
